@@ -402,6 +402,82 @@ def run_cse_trees(ctx, w, S, M):
             ctx.sample({"cse_of": render_forest(rec["roots"]), "real": render_forest(real["out"])})
 
 
+# ------------------------------------------------------------------ C16: adversarial enumeration of the dict
+
+def canon_cse_numbers(forest):
+    """rename the axes `cse.<n>` by first occurrence (pre-order over the forest)"""
+    import re
+    ren = {}
+
+    def walk(j):
+        if j is None:
+            return None
+        t = j["t"]
+        if t == "axis":
+            n = j["n"]
+            if re.fullmatch(r"cse\.\d+", n):
+                n = ren.setdefault(n, f"cse#{len(ren)}")
+            return {"t": "axis", "n": n, "v": j["v"], "min": j["min"]}
+        if t in ("list", "concat"):
+            return {"t": t, "c": [walk(c) for c in j["c"]]}
+        return {"t": t, "e": walk(j["e"])}
+    return [walk(j) for j in forest]
+
+
+def run_cse_order(ctx):
+    """C16: the model `cseTreesEnum` with the dict enumerated in reverse / rotated order must return the expressions the
+    real `cse` returns, up to the numbering of the new axes (`cseTrees_order_independent_partial`); the hypothesis
+    `uniqueIds` of that theorem must hold for every real input."""
+    import json
+    import sys
+    import einx._src.namedtensor.stage2 as S
+    M = sys.modules["einx._src.namedtensor.stage2.cse"]
+    from props import c02
+    cases = [{"api": a, "desc": d, "shapes": [None if s is None else list(s) for s in sh], "params": dict(p)} for a, d, sh, p in FIXED_CALLS]
+    for _ in range(60 if ctx.quick else 800):
+        c = c02.gen_case(ctx.rng)
+        if c["api"] != "solve_axes":
+            cases.append(c)
+    with Wrap() as w:
+        for c in cases:
+            c02.call_real(c)
+    items = list(w.seen_cse.values())
+    n_cap = len(items)
+    for _ in range(200 if ctx.quick else 3000):
+        forest = gen_forest(ctx.rng, S)
+        opts = {"cse_concat": ctx.rng.random() < 0.7, "cse_in_brackets": ctx.rng.random() < 0.4}
+        ren = {}
+        rec = {"roots": forest_json(forest, S, ren), **opts}
+        try:
+            out = {"ok": True, "out": forest_json(list(w.cse(forest, **opts)), S, ren)}
+        except (ValueError, TypeError) as e:
+            out = {"ok": False, "error": type(e).__name__}
+        items.append((rec, out))
+    ctx.count("tie:cse_trees_enum:captured-calls", n_cap)
+    if n_cap == 0:
+        ctx.tie_broken("correspondence:cse_trees_enum", "no call of stage2.cse was captured")
+    drv = ctx.driver()
+    for order in ("reverse", "rotate"):
+        answers = drv.ask_many([{"kind": "cse_enum", "order": order, **rec} for rec, _ in items])
+        for idx, ((rec, real), a) in enumerate(zip(items, answers)):
+            src = "captured" if idx < n_cap else "generated"
+            ctx.count(f"tie:cse_trees_enum:{order}")
+            ctx.count(f"tie:cse_trees_enum:candidates={min(a['candidates'], 3)}" + ("+" if a["candidates"] > 3 else ""))
+            if not a["unique_ids"]:
+                ctx.tie_broken("premise:cse_unique_ids", f"an exprlist belongs to two candidates for cse({render_forest(rec['roots'])!r}) [{src}]")
+            if count_cse_axes(rec["roots"]) > 0:
+                ctx.count("tie:cse_trees_enum:skipped-input-has-cse-names")    # the renumbering is not canonical then
+                continue
+            ctx.case(("cse_enum", order, json.dumps(rec, sort_keys=True)), nontrivial=a["candidates"] > 1)
+            m = a["result"]
+            same = (m["ok"] == real["ok"]) and (not real["ok"] or canon_cse_numbers(m["out"]) == canon_cse_numbers(real["out"]))
+            if not same:
+                ctx.tie_broken("correspondence:cse_trees_enum",
+                               f"enumeration {order}: cse({render_forest(rec['roots'])!r}, cse_concat={rec['cse_concat']}, cse_in_brackets={rec['cse_in_brackets']}): "
+                               f"real {render_forest(real['out']) if real['ok'] else real['error']!r}, "
+                               f"model {render_forest(m['out']) if m['ok'] else m['error']!r} [{src}]")
+
+
 # ------------------------------------------------------------------ (C) brute-force oracle
 
 def free_axes(j, out):
